@@ -60,6 +60,15 @@ Plan tostring_generate(uint64_t base, const std::string &prop, uint64_t index, i
     if (rf.chance(1, 4)) { apply_faults(rf, p.doc, 1 + (int)rf.below(2), p.faults, nullptr); if (p.doc.size() >= 2 && rf.chance(3, 4)) { p.doc[0] = p.root ? 0x42 : 0x40; p.doc.back() = p.root ? 0x43 : 0x41; } }
     p.prefill = rd.chance(1, 2) ? (rd.next() | 1) : 0;
     p.par["nice"] = (int64_t)rd.below(2);
+    // to_string restarts the parser itself (it verifies from the top), so what the object was used for before must not matter
+    int pre = rd.chance(1, 2) ? (int)rd.below(4) : 0;
+    if (pre == 3) {
+        Bytes d = p.doc; std::vector<std::string> f2; Rng r3 = r.fork("damage");
+        apply_faults(r3, d, 1 + (int)r3.below(2), f2, nullptr);
+        if (d.size() == p.doc.size() && d != p.doc) { if (d.size() >= 2 && r3.chance(3, 4)) { d[0] = p.doc[0]; d.back() = p.doc.back(); } p.doc2 = d; p.faults.push_back("F4:damaged_then_repaired_in_place"); }
+        else pre = 1;
+    }
+    p.par["pre"] = pre;
     p.par["only_cap"] = -1;
     p.faults.push_back("F5:every_capacity");
     return p;
@@ -72,10 +81,29 @@ Result tostring_execute(const Plan &p, const ExecCtx &c) {
     PSession ps(tr, sink, r.cnt);
     ps.setup(p.max_depth, p.prefill, p.doc, p.root != 0);
     int64_t nice = p.P("nice", 0);
+    int pre = (int)p.P("pre");
+    if (pre == 3 && !p.doc2.empty()) ps.src = p.doc2;       // the damaged version is delivered first
     Outcome i = ps.call(mk(p.root ? P_INIT_ARR : P_INIT_OBJ, -1));
-    if (!i.ret) { bump(r.cnt, "tostring.init_rejected"); r.trace_hash = tr.h; r.steps = ps.steps; return r; }
-    Outcome v = ps.call(mk(P_VERIFY));
-    bool valid = v.ret;
+    if (!i.ret && pre != 3) { bump(r.cnt, "tostring.init_rejected"); r.trace_hash = tr.h; r.steps = ps.steps; return r; }
+    bool valid;
+    {   // validity of the document the sweep will see: real verify on a fresh parser
+        Trace t2; Sink s2; s2.own = "~"; std::map<std::string, uint64_t> c2;
+        PSession q(t2, s2, c2);
+        q.setup(p.max_depth, 0, p.doc, p.root != 0);
+        Outcome a = q.call(mk(p.root ? P_INIT_ARR : P_INIT_OBJ, -1));
+        valid = a.ret && q.call(mk(P_VERIFY)).ret;
+        if (!a.ret) { bump(r.cnt, "tostring.init_rejected"); r.trace_hash = tr.h; r.steps = ps.steps; return r; }
+    }
+    // prior use of the object
+    if (pre >= 1) {
+        ps.call(mk(p.root ? P_ENTER_ARR : P_ENTER_OBJ));
+        int n = 1 + (int)(p.seed % 5);
+        for (int k = 0; k < n; k++) { Outcome x = ps.call(mk(P_NEXT)); if (k % 2 == 0 && x.ret) ps.call(mk(P_ENTER_OBJ)); }
+        if (pre == 2) { ps.call(mk(P_NEXT_ENSURE, 0, Bytes(), 4)); ps.call(mk(P_FIELD_NULL, 0)); }      // latch an error
+        if (pre == 3) { ps.src = p.doc; ps.rewrite(p.doc); }                                            // repaired in place
+        bump(r.cnt, fmt("tostring.prior_use_%d", pre));
+        if (ps.err() != 0) bump(r.cnt, std::string("probe.to_string_on_parser_in_error_") + err_name(ps.err()));
+    }
     bump(r.cnt, valid ? "tostring.valid_doc" : "tostring.invalid_doc");
     Outcome q = ps.call(mk(P_TO_STRING_NULL, (int64_t)(p.seed % 97), Bytes(), nice));      // incoming *size is arbitrary for a NULL buffer
     size_t N = q.size_out;
